@@ -59,27 +59,27 @@ func (w *World) readConsFees(c *Chain, ctx sdk.Context) consFeeSnap {
 
 // monC16: rewards are conserved end to end and reach only eligible validators.
 type monC16 struct {
-	w       *World
-	cPre    map[string]consFeeSnap // by consumer id, at CPreEnd
-	cPost   map[string]consFeeSnap
+	w     *World
+	cPre  map[string]consFeeSnap // by consumer id, at CPreEnd
+	cPost map[string]consFeeSnap
 	// provider side
-	prevEnd *provRewardSnap
-	begin   *provRewardSnap
-	preEnd  *provRewardSnap
-	joined  map[string]map[string]int64 // consumer -> provider cons hex -> height at which membership (contiguously) began
-	sentByConsumer  map[string]map[string]math.Int // consumer id -> consumer denom -> total put on the wire
-	creditedFor     map[string]map[string]math.Int // consumer id -> consumer denom -> total credited on the provider
-	refunded        map[string]map[string]math.Int
+	prevEnd        *provRewardSnap
+	begin          *provRewardSnap
+	preEnd         *provRewardSnap
+	joined         map[string]map[string]int64    // consumer -> provider cons hex -> height at which membership (contiguously) began
+	sentByConsumer map[string]map[string]math.Int // consumer id -> consumer denom -> total put on the wire
+	creditedFor    map[string]map[string]math.Int // consumer id -> consumer denom -> total credited on the provider
+	refunded       map[string]map[string]math.Int
 }
 
 type provRewardSnap struct {
-	height   int64
-	pool     sdk.Coins
-	distrBal sdk.Coins
-	credits  map[string]sdk.DecCoins // consumer -> credits
-	cp       sdk.DecCoins            // community pool
-	outstanding map[string]sdk.DecCoins // operator -> outstanding rewards
-	commission  map[string]sdk.DecCoins // operator -> accumulated commission
+	height       int64
+	pool         sdk.Coins
+	distrBal     sdk.Coins
+	credits      map[string]sdk.DecCoins // consumer -> credits
+	cp           sdk.DecCoins            // community pool
+	outstanding  map[string]sdk.DecCoins // operator -> outstanding rewards
+	commission   map[string]sdk.DecCoins // operator -> accumulated commission
 	denomsGlobal map[string]bool
 	denomsCons   map[string]map[string]bool
 	sets         map[string][]providertypes.ConsensusValidator
@@ -102,7 +102,9 @@ func (m *monC16) Name() string { return "C16" }
 
 func (m *monC16) CPostBegin(c *Chain, ctx sdk.Context) {}
 func (m *monC16) CPreEnd(c *Chain, ctx sdk.Context)    { m.cPre[c.ConsumerID] = m.w.readConsFees(c, ctx) }
-func (m *monC16) CPostEnd(c *Chain, ctx sdk.Context)   { m.cPost[c.ConsumerID] = m.w.readConsFees(c, ctx) }
+func (m *monC16) CPostEnd(c *Chain, ctx sdk.Context) {
+	m.cPost[c.ConsumerID] = m.w.readConsFees(c, ctx)
+}
 
 func amt(c sdk.Coins, d string) math.Int { return c.AmountOf(d) }
 
